@@ -20,14 +20,16 @@ from ..worker import Driver
 
 VARIANTS = ["asan"]
 IMPORTS = ["(scheme base)", "(scheme write)", "(scheme char)", "(chibi base64)", "(chibi quoted-printable)", "(chibi uri)", "(chibi json)",
-           "(prefix (scheme bytevector) bv:)", "(srfi 160 base)"]
+           "(prefix (scheme bytevector) bv:)", "(srfi 160 base)", "(chibi csv)"]
 RULE = ("case = (codec, input): byte strings of length 0-4096 (every length mod 3/4, all byte values, structured edge cases) for base64 "
         "/ quoted-printable / uri; JSON values of depth <= 6 with every escape class, astral characters and numbers; accessor "
         "(width, signedness, endianness, offset in -1..len+1, value at the type limits); hostile: random bytes and mutated valid "
-        "encodings for every decoder; non-trivial iff the input length is not a multiple of the codec's block size, or contains a "
+        "encodings for every decoder; CSV: 1-4 rows of 1-4 string fields over separators, quotes, CR / LF and non-ASCII, written by "
+        "csv-write and by python's csv module, read by csv->list and by python; non-trivial iff the input length is not a multiple of the codec's block size, or contains a "
         "byte that must be escaped, or (hostile) the decoder took an error path, or (accessor) the offset is at a boundary; "
         "distinct by (codec, input digest)")
-ASSUMPTIONS = ["Python's base64 / quopri / urllib / json / struct modules are the reference codecs",
+ASSUMPTIONS = ["Python's base64 / quopri / urllib / json / struct / csv modules are the reference codecs",
+               "a CSV row consisting of one empty field is not generated (it is written as an empty line, which readers skip)",
                "JSON integers are generated below 2^53 unless testing the big-integer class explicitly"]
 
 PRELUDE = r"""
@@ -38,6 +40,9 @@ PRELUDE = r"""
 (define (bv-sum b) (let lp ((i 0) (a 0) (x 0)) (if (= i (bytevector-length b)) (list (bytevector-length b) a x) (lp (+ i 1) (modulo (+ a (* (+ i 1) (bytevector-u8-ref b i))) 1000000007) (+ x (bytevector-u8-ref b i))))))
 (define (bvl b) (let lp ((i (- (bytevector-length b) 1)) (acc '())) (if (< i 0) acc (lp (- i 1) (cons (bytevector-u8-ref b i) acc)))))
 (define (cps s) (map char->integer (string->list s)))
+(define (csv-text rows) (let ((out (open-output-string))) ((csv-write) rows out) (get-output-string out)))
+(define (csv-parse-string s) (csv->list (csv-read->list) (open-input-string s)))
+(define (rows->cps rows) (map (lambda (r) (map cps r)) rows))
 (define (out id x) (write id) (write-string " ") (write x) (newline))
 (define-syntax try
   (syntax-rules () ((_ id expr) (out id (guard (e (#t (list 'error))) expr)))))
@@ -119,8 +124,17 @@ def rand_json(rng, depth):
 
 
 def rand_jstr(rng):
-    pools = ["abc XYZ", "\"\\/", "\b\f\n\r\t", "\x00\x01\x1f\x7f", "éλ世", "\U0001F600\U00010000\U0010FFFF", "  "]
-    return "".join(rng.choice(rng.choice(pools)) for _ in range(rng.randrange(0, 8)))
+    pools = ["abc XYZ", "\"\\/", "\b\f\n\r\t", "\x00\x01\x1f\x7f", "\u00e9\u03bb\u4e16", "\U0001F600\U00010000\U0010FFFF", "  ",
+             "\x7f\x80\u07ff\u0800\ud7ff\ue000\ufffd\uffff"]
+
+    def one():
+        if rng.random() < 0.15:
+            # astral characters by surrogate pair: both halves at their limits and in between
+            hi = rng.choice([0xD800, 0xDBFF, 0xD83D, rng.randrange(0xD800, 0xDC00)])
+            lo = rng.choice([0xDC00, 0xDFFF, 0xDFFE, 0xDC01, rng.randrange(0xDC00, 0xE000)])
+            return chr(0x10000 + ((hi - 0xD800) << 10) + (lo - 0xDC00))
+        return rng.choice(rng.choice(pools))
+    return "".join(one() for _ in range(rng.randrange(0, 8)))
 
 
 def rand_key(rng):
@@ -304,12 +318,79 @@ def range_judge(case):
     return judge
 
 
+def parse_rows(s):
+    """((( 97 98) ()) ...) -> [["ab", ""], ...]; None if the text is not of that shape"""
+    toks = re.findall(r"[()]|\d+", s)
+    if "".join(toks) != re.sub(r"\s+", "", s):
+        return None
+    pos = [0]
+
+    def rd():
+        t = toks[pos[0]]
+        pos[0] += 1
+        if t == "(":
+            out = []
+            while toks[pos[0]] != ")":
+                out.append(rd())
+            pos[0] += 1
+            return out
+        return int(t)
+    try:
+        v = rd()
+    except IndexError:
+        return None
+    if pos[0] != len(toks) or not isinstance(v, list):
+        return None
+    try:
+        return [["".join(chr(c) for c in f) for f in r] for r in v]
+    except TypeError:
+        return None
+
+
+def py_csv_text(rows, sep, quote_all):
+    import csv
+    import io
+    buf = io.StringIO(newline="")
+    if any("\r" in f or "\n" in f for r in rows for f in r):
+        quote_all = True      # python's minimal quoting leaves a CR bare when the line terminator is LF alone
+    csv.writer(buf, lineterminator=sep, quoting=csv.QUOTE_ALL if quote_all else csv.QUOTE_MINIMAL).writerows(rows)
+    return buf.getvalue()
+
+
+def csv_exprs(case):
+    rows = "(list %s)" % " ".join("(list %s)" % " ".join(sstr(f) for f in r) for r in case["rows"])
+    pytext = py_csv_text(case["rows"], case["pysep"], case["quote_all"])
+    return ["(cps (csv-text %s))" % rows, "(rows->cps (csv-parse-string (csv-text %s)))" % rows, "(rows->cps (csv-parse-string %s))" % sstr(pytext)]
+
+
+def csv_judge(case):
+    rows = case["rows"]
+
+    def judge(o):
+        import csv
+        import io
+        text = parse_cps(o[0])
+        if text is None:
+            return ("csv/write-error", "csv-write raised for %r" % (rows,))
+        try:
+            py = list(csv.reader(io.StringIO(text, newline=""), strict=True))
+        except Exception as ex:
+            return ("csv/writer-emits-invalid-csv", "csv-write(%r) = %r is rejected by python: %s" % (rows, text, ex))
+        if py != rows:
+            return ("csv/python-reads-differently", "python reads %r as %r, expected %r" % (text, py, rows))
+        if parse_rows(o[1]) != rows:
+            return ("csv/roundtrip", "csv->list(csv-write(%r)) = %s" % (rows, o[1][:300]))
+        if parse_rows(o[2]) != rows:
+            return ("csv/decode", "csv->list(%r) = %s, expected %r" % (py_csv_text(rows, case["pysep"], case["quote_all"]), o[2][:300], rows))
+    return judge
+
+
 EXCL = [0]
 
 
 def gen_cases(rng, n, b, known=()):
     for _ in range(n):
-        kind = rng.choice(["b64", "b64", "b64s", "qp", "qps", "uri", "uri", "json", "json", "json-text", "acc", "acc", "acc-oob", "u160", "hostile", "hostile", "utf8", "range", "range", "b64stream"])
+        kind = rng.choice(["b64", "b64", "b64s", "qp", "qps", "uri", "uri", "json", "json", "json-text", "acc", "acc", "acc-oob", "u160", "hostile", "hostile", "utf8", "range", "range", "b64stream", "csv", "csv"])
         if kind == "b64":
             x = rand_bytes(rng)
             case = {"codec": "base64-bytevector", "input": list(x)}
@@ -473,6 +554,18 @@ def gen_cases(rng, n, b, known=()):
             nl = rng.choice(["10", "13 10"])
             case = {"codec": "base64-stream", "n": n, "seed": seed, "cols": cols, "nl": nl}
             b.add(b64stream_exprs(case), case, b64stream_judge(case))
+        elif kind == "csv":
+            # rows of string fields over an alphabet rich in the characters the format treats specially; a row consisting
+            # of one empty field is excluded (it is written as an empty line, which every CSV reader skips)
+            alpha = "ab1 ,,\"\"\n\r;\t'\u00e9\u03bb\U0001f600"
+            rows = []
+            for _r in range(rng.randrange(1, 5)):
+                row = ["".join(rng.choice(alpha) for _c in range(rng.choice([0, 1, 2, 3, 8]))) for _f in range(rng.randrange(1, 5))]
+                if row == [""]:
+                    row = ["", ""]
+                rows.append(row)
+            case = {"codec": "csv", "rows": rows, "pysep": rng.choice(["\n", "\r\n"]), "quote_all": rng.random() < 0.3}
+            b.add(csv_exprs(case), case, csv_judge(case))
         elif kind == "range":
             # optional start / end arguments of the byte-level converters: every combination around the bounds
             fn = rng.choice(["utf8->string", "string->utf8", "bytevector-copy", "bytevector-copy!"])
@@ -500,7 +593,7 @@ def gen_cases(rng, n, b, known=()):
         else:
             # hostile input to every decoder: value or error, never a crash / hang (judged at batch level)
             which = rng.choice(["base64-decode-bytevector", "base64-decode-string", "quoted-printable-decode-bytevector", "quoted-printable-decode-string",
-                                "uri-decode", "string->json", "utf8->string", "string->json"])
+                                "uri-decode", "string->json", "utf8->string", "string->json", "csv-parse-string"])
             if rng.random() < 0.5:
                 raw = rand_bytes(rng, 120)
             else:
@@ -512,6 +605,8 @@ def gen_cases(rng, n, b, known=()):
                     valid = urllib.parse.quote(rand_text(rng, 20)).encode()
                 elif which == "string->json":
                     valid = json.dumps(rand_json(rng, 4)).encode()
+                elif which == "csv-parse-string":
+                    valid = py_csv_text([[rand_text(rng, 6) + rng.choice(["", ",", "\"", "\n"]) for _f in range(3)] for _r in range(3)], "\r\n", False).encode()
                 else:
                     valid = rand_text(rng, 20).encode("utf-8")
                 raw = mutate(rng, valid)
@@ -637,6 +732,8 @@ def make_judge(case):
             elif got != "(error)":
                 return ("srfi160/out-of-range-not-rejected", got[:100])
         return judge
+    if c == "csv":
+        return csv_judge(case)
     if c == "range":
         return range_judge(case)
     if c == "base64-stream":
@@ -674,6 +771,8 @@ def nontrivial(case):
     c = case["codec"]
     if c.startswith("hostile"):
         return True
+    if c == "csv":
+        return any(ch in f for r in case["rows"] for f in r for ch in ",\"\n\r")
     if "input" in case and isinstance(case["input"], list):
         n = len(case["input"])
         return n % 3 != 0 or any(x in (61, 37, 0, 255, 10, 13) for x in case["input"])
